@@ -466,8 +466,27 @@ func c20RunFaults(sp c20FaultSpec) c20FaultObs {
 	box.mu.Lock()
 	obs.leftH, obs.leftE = len(box.faults[false]), len(box.faults[true])
 	box.mu.Unlock()
-	// quiescence: a last delivery / duplicate may still be in the receiver's engine
+	// quiescence: a last delivery / duplicate may still be in the receiver's engine — and a REPLY is sent through the
+	// async path (ReplyDataMessage returns at enqueue), so its block may still be on the line: when its ACK was dropped
+	// the sender retransmits only after T2. The line is quiet once the box has logged no block for T2 + 2 x T1 (a pending
+	// retry would have shown within T2). (Was a fixed 3 x T1 sleep: with T2 > 3 x T1 the counters were read while the
+	// last reply's retransmission was still to come — false alarm in a thorough sweep, seed 44, recorded in DESIGN 9.4.)
 	time.Sleep(3*sp.T1 + 50*time.Millisecond)
+	quiet := sp.T2 + 2*sp.T1
+	lastN, lastChange := -1, time.Now()
+	for deadline := time.Now().Add(8*sp.T2 + 10*time.Second); time.Now().Before(deadline); time.Sleep(20 * time.Millisecond) {
+		box.mu.Lock()
+		n := len(box.log)
+		box.mu.Unlock()
+		if n != lastN {
+			lastN, lastChange = n, time.Now()
+		} else if time.Since(lastChange) >= quiet {
+			break
+		}
+	}
+	box.mu.Lock()
+	obs.leftH, obs.leftE = len(box.faults[false]), len(box.faults[true])
+	box.mu.Unlock()
 	obs.mH, obs.mE = rReadMetrics(ho.conn), rReadMetrics(eq.conn)
 	bh, be := ho.conn.BlockMetrics(), eq.conn.BlockMetrics()
 	obs.dupH, obs.dupE = bh.BlockDupDropCount(), be.BlockDupDropCount()
